@@ -425,6 +425,9 @@ class World:  # pylint: disable=too-many-instance-attributes,too-many-public-met
     def op_add_pack(self, side, op):
         handle = self.handle(side, op)
         datas = [self.content(c) for c in op['cs']]
+        if op.get('mass'):
+            # real batch sizes: more distinct tiny objects than the library's 1000-row paging / flushing granularity
+            datas = datas + [b'mass-%d-%d' % (op.get('seed', 0), i) for i in range(op['mass'])]
         expected = [hkey(side.hash_type, d) for d in datas]
         kwargs = {
             'compress': bool(op.get('compress', False)),
